@@ -76,8 +76,8 @@ def applicable(c, sh):
             return ['AltForm']
         return ['WrongShape']
     if c == 'cUQ':
-        if d == (4,):
-            return ['Valid', 'NotOrtho']
+        if d == (4,):             # a unit 4-vector; any other non-zero 4-vector is normalised (documented form); the zero vector cannot be
+            return ['Valid', 'AltForm', 'ZeroRow']
         if d == (3, 3):
             return ['Valid', 'NotOrtho', 'Reflect']
         if d == (4, 4):           # a valid SE(3) matrix, or -- any other 4x4 -- the documented N x 4 form with N = 4
@@ -185,8 +185,10 @@ def make_item(rng, c, sh, tag):
             return X
         if sh == ('Vec', 4):
             q = rand_unit(rng, 4)
-            if tag == 'NotOrtho':
-                q = q * (1 + log_uniform(rng, 1e-5, 1.0) * rng.choice([-0.9, 1.0])) if rng.random() < 0.9 else np.zeros(4)
+            if tag == 'AltForm':
+                q = q * (1 + log_uniform(rng, 1e-5, 1.0) * rng.choice([-0.9, 1.0])) * (1.0 if rng.random() < 0.7 else log_uniform(rng, 1e-6, 1e6))
+            elif tag == 'ZeroRow':
+                q = np.zeros(4) if rng.random() < 0.7 else q * log_uniform(rng, 1e-30, 1e-15)
             return q
         raise ValueError((c, sh, tag))
     if c in ('cTw2', 'cTw3'):
